@@ -38,6 +38,16 @@ ChainCases == {[fam |-> "chain", kind |-> k, len |-> n, cyc |-> cy, leaf |-> lf,
 MemberCases == {[fam |-> "member", gk |-> gk, mk |-> mk] :
                   gk \in {"GROUP", "FUNCTION"}, mk \in {"AXIS_PTS", "BLOB", "CHARACTERISTIC", "INSTANCE", "MEASUREMENT"}}
 
+\* a group / function with two member lists: every name of one list is dangling, the other list is fine
+MemberSitesOf(k) == IF k = "GROUP" THEN {"GROUP/REF_CHARACTERISTIC.identifier_list", "GROUP/REF_MEASUREMENT.identifier_list"}
+                    ELSE {"FUNCTION/IN_MEASUREMENT.identifier_list", "FUNCTION/LOC_MEASUREMENT.identifier_list",
+                          "FUNCTION/OUT_MEASUREMENT.identifier_list", "FUNCTION/DEF_CHARACTERISTIC.identifier_list",
+                          "FUNCTION/REF_CHARACTERISTIC.identifier_list"}
+MixedCases == UNION {UNION {{[fam |-> "mixed", gk |-> gk, bad |-> b, good |-> g] : g \in MemberSitesOf(gk) \ {b}} : b \in MemberSitesOf(gk)} :
+                        gk \in {"GROUP", "FUNCTION"}}
+IsMeasSite(s) == s \in {"GROUP/REF_MEASUREMENT.identifier_list", "FUNCTION/IN_MEASUREMENT.identifier_list",
+                        "FUNCTION/LOC_MEASUREMENT.identifier_list", "FUNCTION/OUT_MEASUREMENT.identifier_list"}
+
 ChainSite(k) == CASE k = "GROUP" -> "GROUP/SUB_GROUP.identifier_list"
                   [] k = "FUNCTION" -> "FUNCTION/SUB_FUNCTION.identifier_list"
                   [] OTHER -> "UNIT/REF_UNIT.unit"
@@ -72,6 +82,9 @@ ModuleOf(x) ==
                        ELSE IF x.kind = "GROUP" THEN <<El("USER_RIGHTS", "user0", 41, <<<<"USER_RIGHTS/REF_GROUP.identifier_list", <<"h1">>>>>>)>>
                        ELSE <<El("MEASUREMENT", "m1", 52, <<<<"MEASUREMENT/FUNCTION_LIST.name_list", <<"h1">>>>>>)>>
         IN chain \o refd \o headRef \o <<El("CHARACTERISTIC", "c0", 60, <<>>)>>
+    ELSE IF x.fam = "mixed" THEN
+        <<El(x.gk, "g1", 20, <<<<x.bad, <<"missing1", "missing2">>>>, <<x.good, <<"x0">>>>>>),
+          El(IF IsMeasSite(x.good) THEN "MEASUREMENT" ELSE "CHARACTERISTIC", "x0", 60, <<>>)>>
     ELSE
         <<El(x.gk, "g1", 20, <<<<MemberSite(x.gk), <<"x0">>>>>>), El(x.mk, "x0", 60, <<>>)>>
 
@@ -81,8 +94,9 @@ Flat(M) == [elems |-> [i \in 1..Len(M) |-> <<NsOfKind[M[i].kind], M[i].kind, M[i
             refs |-> SetToSeq(FlatRefs(M))]
 
 Init == sc = [stage |-> 0]
-Next == \/ sc.stage = 0 /\ \E f \in {"site", "chain", "member"} : sc' = [stage |-> 1, fam |-> f]
-        \/ sc.stage = 1 /\ \E x \in (IF sc.fam = "site" THEN SiteCases ELSE IF sc.fam = "chain" THEN ChainCases ELSE MemberCases) :
+Next == \/ sc.stage = 0 /\ \E f \in {"site", "chain", "member", "mixed"} : sc' = [stage |-> 1, fam |-> f]
+        \/ sc.stage = 1 /\ \E x \in (IF sc.fam = "site" THEN SiteCases ELSE IF sc.fam = "chain" THEN ChainCases
+                                      ELSE IF sc.fam = "mixed" THEN MixedCases ELSE MemberCases) :
                                sc' = [stage |-> 2, x |-> x]
 Spec == Init /\ [][Next]_sc
 
